@@ -230,7 +230,7 @@ class _Expr(SymEval):
         if meth is None or not meth.posparams or not isinstance(self.env.get(meth.posparams[0]), Rec):
             raise NotSymbolic("super() outside a method of a model object")
         rec = self.env[meth.posparams[0]]
-        args = [self.eval(a) for a in n.args]
+        args = self._args(n)
         kw = {k.arg: self.eval(k.value) for k in n.keywords if k.arg is not None}
         todo = list(meth.cls.node.bases)
         seen = 0
@@ -255,6 +255,19 @@ class _Expr(SymEval):
                         return str(a_[0]) if len(a_) == 1 else ("" if not a_ else str(tuple(a_)))
                 raise NotSymbolic(f"super().{name} of {r[1]}")
         raise NotSymbolic(f"super().{name}: no base defines it")
+
+    def _args(self, n):
+        """Positional arguments of a call, `*iterable` expanded."""
+        out = []
+        for a in n.args:
+            if isinstance(a, ast.Starred):
+                v = self.eval(a.value)
+                if not isinstance(v, (list, tuple)) and not (isinstance(v, np.ndarray) and v.ndim == 1):
+                    raise NotSymbolic("*argument that is not a sequence")
+                out.extend(list(v))
+            else:
+                out.append(self.eval(a))
+        return out
 
     def _call_value(self, fv, args):
         """Call a model callable (a lambda, a nested function, a package function) held as a value."""
@@ -460,9 +473,9 @@ class _Expr(SymEval):
             mod = getattr(self.owner, "module", None) or (self.owner.cls.module if self.owner.cls is not None else None)
             r = self.owner.prog.resolve_expr(None, mod, f) if mod is not None else None
             if r is not None and r[0] == "external" and r[1] in getattr(self.owner, "ext_stubs", {}):
-                return self.owner.ext_stubs[r[1]]([self.eval(a) for a in n.args], {k.arg: self.eval(k.value) for k in n.keywords if k.arg is not None})
+                return self.owner.ext_stubs[r[1]](self._args(n), {k.arg: self.eval(k.value) for k in n.keywords if k.arg is not None})
             if r is not None and r[0] == "external" and r[1] in _PURE_EXTERNALS:
-                args = [self.eval(a) for a in n.args]
+                args = self._args(n)
                 if not all(isinstance(a, str) for a in args):
                     raise NotSymbolic(f"{r[1]} on non-constant arguments")
                 return _prog_call(_PURE_EXTERNALS[r[1]], *args)
@@ -489,7 +502,7 @@ class _Expr(SymEval):
                 raise Raised(str(exc)) from exc
         # numeric-only numpy helpers and reductions that SymEval does not know
         if isinstance(f, ast.Attribute) and isinstance(f.value, ast.Name) and f.value.id in self.np_names:
-            args = [self.eval(a) for a in n.args]
+            args = self._args(n)
             kw = {k.arg: self.eval(k.value) for k in n.keywords}
             if f.attr == "clip":
                 if not _is_numeric(np.asarray(args[0])) or np.asarray(args[0]).dtype == object:
@@ -557,7 +570,7 @@ class _Expr(SymEval):
                 return dict(a0.fields)
             raise NotSymbolic("asdict of a non-instance")
         if isinstance(f, ast.Attribute) and isinstance(f.value, ast.Name) and f.value.id not in self.env and (f.value.id, f.attr) in (("attrs", "evolve"), ("attr", "evolve"), ("copy", "copy"), ("copy", "deepcopy")):
-            args = [self.eval(a) for a in n.args]
+            args = self._args(n)
             if args and isinstance(args[0], Rec):
                 new = args[0].clone() if f.attr == "deepcopy" else args[0].shallow()
                 for k in n.keywords:
@@ -568,7 +581,7 @@ class _Expr(SymEval):
         if isinstance(f, ast.Attribute):
             base = self.eval(f.value)
             if isinstance(base, np.ndarray):
-                args = [self.eval(a) for a in n.args]
+                args = self._args(n)
                 if f.attr in ("sum", "all", "any", "max", "min") and not n.keywords:
                     if f.attr == "sum" and base.dtype != object:
                         return base.sum()
@@ -607,7 +620,7 @@ class _Expr(SymEval):
                     raise NotSymbolic("read() of a non-text stream")
                 return "".join(rest) if f.attr == "read" else rest
             if isinstance(base, (_re.Match, _re.Pattern)) and f.attr in ("group", "groups", "groupdict", "start", "end", "span", "search", "match", "fullmatch", "findall", "split", "sub"):
-                margs = [self.eval(a) for a in n.args]
+                margs = self._args(n)
                 if not all(isinstance(a, (str, int)) for a in margs):
                     raise NotSymbolic(f"regular-expression method {f.attr} on non-constant arguments")
                 return _prog_call(getattr(base, f.attr), *margs)
@@ -620,7 +633,7 @@ class _Expr(SymEval):
                     return len(txt)
                 raise NotSymbolic(f"method {f.attr} on an output file")
             if isinstance(base, Rec):
-                margs = [self.eval(a) for a in n.args]
+                margs = self._args(n)
                 mkw = {}
                 for k in n.keywords:
                     if k.arg is None:
@@ -633,7 +646,7 @@ class _Expr(SymEval):
                     return held[1](margs, mkw) if callable(held[1]) else self.owner.run_free(held[1], margs, mkw)
                 return self.owner.call_method(base, f.attr, margs, mkw)
             if isinstance(base, str) and f.attr in ("lower", "upper", "strip", "title", "capitalize", "startswith", "endswith", "replace", "split", "join", "rstrip", "lstrip", "index", "find", "count", "isdigit", "isalpha", "ljust", "rjust", "center", "zfill", "splitlines"):
-                return _prog_call(getattr(base, f.attr), *[self.eval(a) for a in n.args])
+                return _prog_call(getattr(base, f.attr), *self._args(n))
             if isinstance(base, str) and f.attr == "format":
                 args = []
                 for a in n.args:
@@ -653,14 +666,14 @@ class _Expr(SymEval):
                     raise NotSymbolic("str.format of a symbolic value")
                 return _prog_call(base.format, *args, **kw)
             if isinstance(base, _re.Pattern) and f.attr in ("search", "match", "fullmatch", "findall"):
-                args = [self.eval(a) for a in n.args]
+                args = self._args(n)
                 if not all(isinstance(a, str) for a in args):
                     raise NotSymbolic("regular expression applied to a non-constant")
                 return _prog_call(getattr(base, f.attr), *args)
             if isinstance(base, (set, frozenset)) and f.attr in ("difference", "union", "intersection", "issubset", "issuperset", "symmetric_difference", "add", "copy", "isdisjoint"):
-                return _prog_call(getattr(base, f.attr), *[self.eval(a) for a in n.args])
+                return _prog_call(getattr(base, f.attr), *self._args(n))
             if isinstance(base, list) and f.attr in ("append", "extend", "index", "count", "copy", "insert", "pop", "reverse", "clear", "remove"):
-                return _prog_call(getattr(base, f.attr), *[self.eval(a) for a in n.args])
+                return _prog_call(getattr(base, f.attr), *self._args(n))
             if isinstance(base, list) and f.attr == "sort" and not n.args:
                 kwv = {k.arg: self.eval(k.value) for k in n.keywords}
                 keyf = kwv.get("key")
@@ -671,20 +684,20 @@ class _Expr(SymEval):
                 base[:] = [base[i] for i in order]  # in place, stable: the caller's list object is re-ordered
                 return None
             if isinstance(base, dict) and f.attr in ("update", "get", "items", "keys", "values", "setdefault", "pop", "copy"):
-                args = [self.eval(a) for a in n.args]
+                args = self._args(n)
                 kw = {k.arg: self.eval(k.value) for k in n.keywords if k.arg is not None}
                 res = _prog_call(getattr(base, f.attr), *args, **kw)
                 return list(res) if f.attr in ("items", "keys", "values") else res
             self._receiver = base  # evaluated once: hand it to the generic method dispatch
             return super().e_Call(n)
         if isinstance(f, ast.Name) and f.id in self.env and isinstance(self.env[f.id], type) and self.env[f.id] in (int, float, str, bool):
-            args = [self.eval(a) for a in n.args]
+            args = self._args(n)
             if any(isinstance(a, (Sym, Rec, np.ndarray)) for a in args):
                 raise NotSymbolic("type conversion of a symbolic / array value")
             return _prog_call(self.env[f.id], *args)
         if isinstance(f, ast.Name) and f.id in self.env and isinstance(self.env[f.id], tuple) and len(self.env[f.id]) == 2 and self.env[f.id][0] == "<function>":
             target = self.env[f.id][1]
-            args = [self.eval(a) for a in n.args]
+            args = self._args(n)
             kw = {k.arg: self.eval(k.value) for k in n.keywords if k.arg is not None}
             if callable(target):
                 return target(args, kw)  # a model callback supplied by the rule
@@ -693,7 +706,7 @@ class _Expr(SymEval):
             r = self.owner.prog.lookup(None, getattr(self.owner, "module", None) or self.owner.cls.module, f.id)
             if r is not None and r[0] == "func":
                 g = r[1]
-                args = [self.eval(a) for a in n.args]
+                args = self._args(n)
                 kw = {}
                 for k in n.keywords:
                     if k.arg is None:
@@ -705,9 +718,9 @@ class _Expr(SymEval):
                     return stub(args, kw)
                 return self.owner.run_free(g, args, kw)
             if r is not None and r[0] == "external" and r[1] in getattr(self.owner, "ext_stubs", {}):
-                return self.owner.ext_stubs[r[1]]([self.eval(a) for a in n.args], {k.arg: self.eval(k.value) for k in n.keywords if k.arg is not None})
+                return self.owner.ext_stubs[r[1]](self._args(n), {k.arg: self.eval(k.value) for k in n.keywords if k.arg is not None})
             if r is not None and r[0] == "external" and r[1] in _PURE_EXTERNALS:
-                args = [self.eval(a) for a in n.args]
+                args = self._args(n)
                 if not all(isinstance(a, str) for a in args):
                     raise NotSymbolic(f"{r[1]} on non-constant arguments")
                 return _prog_call(_PURE_EXTERNALS[r[1]], *args)
@@ -723,7 +736,7 @@ class _Expr(SymEval):
             if r is not None and r[0] == "class":
                 ci = r[1]
                 names = list(ci.fields)
-                args = [self.eval(a) for a in n.args]
+                args = self._args(n)
                 kw = {}
                 for k in n.keywords:
                     if k.arg is None:
@@ -758,8 +771,13 @@ class _Expr(SymEval):
                         return Sym.const(abs(c))
                     return _opaque("abs", v)
                 return abs(v)
+            if f.id == "enumerate" and len(n.args) == 1 and len(n.keywords) == 1 and n.keywords[0].arg == "start":
+                v0, st0 = self.eval(n.args[0]), self.eval(n.keywords[0].value)
+                if isinstance(v0, Rec) or not isinstance(st0, (int, np.integer)):
+                    raise NotSymbolic("enumerate(start=) over a model iterator")
+                return [(i, x) for i, x in enumerate([v0[i] for i in range(v0.shape[0])] if isinstance(v0, np.ndarray) else list(v0), int(st0))]
             if f.id in ("zip", "enumerate", "range", "all", "any", "reversed") and not n.keywords:
-                args = [self.eval(a) for a in n.args]
+                args = self._args(n)
                 rows = lambda a: [a[i] for i in range(a.shape[0])] if isinstance(a, np.ndarray) else list(a)
                 if f.id == "zip":
                     return [tuple(t) for t in zip(*[rows(a) for a in args])]
@@ -816,7 +834,7 @@ class _Expr(SymEval):
                     sink = self.owner.__dict__.setdefault("stdout", TextSink())  # the process's standard output
                 if not isinstance(sink, TextSink):
                     raise NotSymbolic("print to something that is not a model output file")
-                vals = [self.eval(a) for a in n.args]
+                vals = self._args(n)
                 if any(isinstance(v, (Sym, Rec)) or (isinstance(v, np.ndarray) and v.dtype == object) for v in vals):
                     raise NotSymbolic("print of a symbolic value")
                 sink.parts.append(str(kw.get("sep", " ")).join(str(v) for v in vals) + str(kw.get("end", "\n")))
@@ -835,7 +853,7 @@ class _Expr(SymEval):
             if f.id == "open" and "open" not in self.env and n.args:
                 # the output (or input) file of an API routine: a model file; the rule sees what happened through it
                 hook = getattr(self.owner, "ext_stubs", {}).get("builtins.open")
-                margs = [self.eval(a) for a in n.args]
+                margs = self._args(n)
                 mkw = {k.arg: self.eval(k.value) for k in n.keywords if k.arg is not None}
                 if hook is None:
                     raise NotSymbolic("open() without a model file")
@@ -895,7 +913,7 @@ class _Expr(SymEval):
         if isinstance(f, (ast.Subscript, ast.Call)):
             fv = self.eval(f)
             if isinstance(fv, tuple) and len(fv) == 2 and fv[0] == "<function>":
-                args = [self.eval(a) for a in n.args]
+                args = self._args(n)
                 kw = {k.arg: self.eval(k.value) for k in n.keywords if k.arg is not None}
                 if callable(fv[1]):
                     return fv[1](args, kw)
